@@ -88,6 +88,12 @@ class Check:
         # one line per distinct key
         seen = set()
         rdir = os.path.join(VERIF, 'reports', self.pid)
+        if os.path.isdir(rdir):
+            for f_ in os.listdir(rdir):
+                try:
+                    os.unlink(os.path.join(rdir, f_))
+                except OSError:
+                    pass
         for rep in out_viol:
             if rep['key'] in seen:
                 continue
